@@ -457,7 +457,12 @@ pub fn case(max_n: u8) -> impl Strategy<Value = Case> {
     let k = prop_oneof![1 => Just(0u8), 1 => Just(1u8), 1 => Just(2u8), 1 => Just(3u8), 4 => Just(8u8), 1 => Just(16u8), 1 => Just(20u8)];
     let faults = prop_oneof![3 => Just(Vec::new()), 2 => prop::collection::vec((any::<u8>(), mode()), 1..4)];
     let liars = prop_oneof![3 => Just(Vec::new()), 1 => prop::collection::vec((any::<u8>(), prop::collection::vec(name(), 1..9)).prop_map(|(attached, names)| Liar { attached, names }), 1..3)];
-    (2u8..=max_n, topo, any::<u8>(), key, k, any::<u8>(), faults, liars, prop::bool::weighted(0.15), prop_oneof![2 => Just(0u8), 1 => 1u8..40]).prop_map(|(n, topo, id_seed, key, k, start, faults, liars, distinct_app_ids, jitter_ms)| Case { n, topo, id_seed, key, k, start, faults, liars, distinct_app_ids, jitter_ms })
+    let general = (2u8..=max_n, topo, any::<u8>(), key, k, any::<u8>(), faults, liars, prop::bool::weighted(0.15), prop_oneof![2 => Just(0u8), 1 => 1u8..40]).prop_map(|(n, topo, id_seed, key, k, start, faults, liars, distinct_app_ids, jitter_ms)| Case { n, topo, id_seed, key, k, start, faults, liars, distinct_app_ids, jitter_ms });
+    // "hub" scenarios: the requester is the centre of a star (or the root of a tree), so most peers it asks know
+    // nobody but the requester and answer without a node list; small K so the result fills up early
+    let hub = (5u8..=max_n.max(6), prop_oneof![2 => Just(Topo::Star), 1 => Just(Topo::Tree)], any::<u8>(), any::<u8>(), 1u8..=4, prop_oneof![3 => Just(Vec::new()), 1 => prop::collection::vec((any::<u8>(), mode()), 1..3)])
+        .prop_map(|(n, topo, id_seed, kx, k, faults)| Case { n, topo, id_seed, key: KeyPick::Random(kx), k, start: 0, faults, liars: Vec::new(), distinct_app_ids: false, jitter_ms: 0 });
+    prop_oneof![4 => general, 1 => hub]
 }
 
 pub fn run(run: &Run) {
